@@ -7,7 +7,7 @@ let nn s = n_of_dec s
 (* an operation runs its steps to completion (single-threaded cases) *)
 let ring_ops (cap : int) (ops : string list) : string =
   let r = ref (ring_init (n_of_int cap)) in
-  let step s = let (r', o) = ring_step true !r s in r := r'; o in
+  let step s = let (r', o) = ring_step true true !r s in r := r'; o in
   let toks = List.filter_map (fun op ->
       match split_on ':' op with
       | ["p"; v] ->
